@@ -16,6 +16,7 @@ import (
 var errorType = types.Universe.Lookup("error").Type()
 
 func (e *Enc) call(in *ssa.Call) {
+	e.curCall = in
 	res := e.callCommon(in.Common(), in.Pos(), in.Name(), in.Type())
 	switch len(res) {
 	case 0:
@@ -43,6 +44,11 @@ func (e *Enc) callCommon(c *ssa.CallCommon, pos token.Pos, hint string, rt types
 		panic(unsupported("dynamic call through function value"))
 	}
 	key := w.fnKey(callee)
+	if callee.Synthetic == "package initializer" && callee.Pkg != nil && !strings.HasPrefix(callee.Pkg.Pkg.Path(), rootPath) {
+		// initialiser of a dependency: touches none of psatoken's memory (assumption)
+		w.intrinsicsUsed["<dependency package initialisers>"] = true
+		return nil
+	}
 	if r, ok := e.intrinsic(key, callee, c, pos, hint); ok {
 		w.intrinsicsUsed[key] = true
 		return r
@@ -152,8 +158,17 @@ func (e *Enc) applyContract(ct *Contract, guard string, vars map[string]Term, rt
 	// effects
 	for _, m := range ct.Modifies {
 		for _, a := range e.trAddr(envPre, m.Expr) {
-			e.frameCheck(a, "callee "+ct.Key+" modifies "+m.Text, pos)
+			if !(e.isInit && strings.HasSuffix(ct.Key, ".init")) { // a sub-package initialiser writes its own package's variables
+				e.frameCheck(a, "callee "+ct.Key+" modifies "+m.Text, pos)
+			}
 			e.havocAddr(a, guard, wNew)
+			if !w.verIgnored(a) {
+				hOld := e.cur.H
+				e.bumpH(a)
+				if guard != "true" {
+					e.cur.H = fmt.Sprintf("(ite %s %s %s)", guard, e.cur.H, hOld)
+				}
+			}
 		}
 	}
 	e.cur.W, e.cur.A = wNew, aNew
@@ -325,7 +340,7 @@ func (e *Enc) modMems(ct *Contract, m *Clause) (out []MemRef) {
 		}
 		vars = bindParams(sig, args)
 	}
-	scratch := &State{mem: map[string]string{}, W: "0", A: "0"}
+	scratch := &State{mem: map[string]string{}, W: "0", A: "0", H: "0"}
 	env := &Env{w: e.w, pkg: e.pkgOf(ct), vars: vars, pre: scratch, cur: scratch, W0: "0", decl: e.declare, useMem: e.useMem, ghost: e.ghost}
 	for _, a := range e.trAddr(env, m.Expr) {
 		switch {
@@ -389,6 +404,7 @@ func (e *Enc) builtin(b *ssa.Builtin, c *ssa.CallCommon, pos token.Pos, hint str
 		dm := stateMem(e.cur, e.useMem, md)
 		// delete on a nil map is a no-op
 		e.cur.mem[md.Name] = fmt.Sprintf("(ite (= %s 0) %s %s)", m.S, dm, sto(dm, m.S, sto(sel(dm, m.S), k.S, "false")))
+		e.bumpH(&Addr{base: m.S, isMap: true, mapT: mt, elem: mt})
 		return nil
 	case "ssa:wrapnilchk":
 		x := e.term(c.Args[0])
@@ -456,6 +472,7 @@ func (e *Enc) appendBuiltin(c *ssa.CallCommon, pos token.Pos) Term {
 		e.curReach = saved
 	}
 	e.cur.mem[m.Name] = sto(mt, baseN, resArr)
+	e.bumpH(&Addr{base: baseN, isElem: true, allElem: true, elem: st.Elem()})
 	capN := fmt.Sprintf("(ite %s (s-cap %s) %s)", fits, s.S, newCap)
 	res := e.define(e.fresh("append"), "Slice", fmt.Sprintf("(mk-slice %s %s %s %s)", baseN, offN, newLen, capN))
 	// ghost allocation: amortised 2x the appended bytes when growing
@@ -471,7 +488,7 @@ func (e *Enc) intrinsic(key string, callee *ssa.Function, c *ssa.CallCommon, pos
 	switch key {
 	case "errors.New":
 		ref := e.alloc("err")
-		e.assume("(= (errclass " + ref + ") #x00000000)")
+		e.assume("(= (errclass " + ref + ") " + e.ownSentinelClass() + ")")
 		e.chargeAlloc("32")
 		return []Term{{fmt.Sprintf("(mk-iface %d %s \"\" #x0000000000000000)", w.libErrorTag(), ref), "Iface", errorType}}, true
 	case "fmt.Errorf":
@@ -537,6 +554,24 @@ func (e *Enc) intrinsic(key string, callee *ssa.Function, c *ssa.CallCommon, pos
 	return nil, false
 }
 
+// ownSentinelClass: in an initialiser, an error created by errors.New / fmt.Errorf and stored
+// straight into a package-level error variable is that sentinel: it carries its own class bit.
+func (e *Enc) ownSentinelClass() string {
+	var bits uint32
+	if e.initPhase && e.curCall != nil && e.curCall.Referrers() != nil {
+		for _, r := range *e.curCall.Referrers() {
+			st, ok := r.(*ssa.Store)
+			if !ok || st.Val != ssa.Value(e.curCall) {
+				continue
+			}
+			if g, ok := st.Addr.(*ssa.Global); ok && types.Identical(g.Type().Underlying().(*types.Pointer).Elem(), errorType) {
+				bits |= 1 << uint(e.w.reg.sentinelBit(e.pkg.Name()+"."+g.Name()))
+			}
+		}
+	}
+	return fmt.Sprintf("#x%08x", bits)
+}
+
 func errorStringType(w *World) types.Type {
 	// a stand-in concrete type for library-made errors
 	return types.NewNamed(types.NewTypeName(token.NoPos, nil, "libError", nil), types.NewStruct(nil, nil), nil)
@@ -593,7 +628,7 @@ func (e *Enc) errorf(c *ssa.CallCommon, pos token.Pos) Term {
 	}
 	ref := e.alloc("err")
 	e.chargeAlloc("64")
-	class := "#x00000000"
+	class := e.ownSentinelClass()
 	if len(wIdx) > 0 {
 		va := e.term(c.Args[1]) // the varargs slice
 		m := w.reg.elemMem(types.NewInterfaceType(nil, nil))
@@ -625,6 +660,9 @@ func (e *Enc) invokeContracts(c *ssa.CallCommon) []*Contract {
 	var out []*Contract
 	if ct := e.w.cs.Funcs[e.ifaceKey(c)]; ct != nil {
 		out = append(out, ct)
+		if ct.Options["also-implementors"] == "" {
+			return out
+		}
 	}
 	for _, ic := range e.implCases(c) {
 		out = append(out, ic.ct)
@@ -729,6 +767,9 @@ func (e *Enc) invoke(c *ssa.CallCommon, pos token.Pos, hint string) []Term {
 			alts = append(alts, fmt.Sprintf("(= (i-tag %s) %d)", recv.S, w.reg.tagOf(ic.dynT)))
 		}
 		e.oblige("invoke-closed", "", or(alts...), "dynamic type of "+c.Value.Name()+" must be one of the implementors of "+ikey+" under contract", nil, pos)
+	}
+	if ict != nil && ict.Options["also-implementors"] == "" {
+		cases = nil // open world: only the interface-level contract is known at this call
 	}
 	for _, ic := range cases {
 		guard := fmt.Sprintf("(= (i-tag %s) %d)", recv.S, w.reg.tagOf(ic.dynT))
